@@ -279,6 +279,39 @@ def w_shape_copies(idx):
             finally:
                 Node.store = old_store
             n += 1
+        # what lies OUTSIDE the copied subtree is not copied: ancestors (and siblings) carry attributes, qualified attributes
+        # (xml:lang ...), namespaces, text and tails that the copied node lacks - the copy has exactly the fields of its source
+        if len(t["from"]["kids"]) > 2:
+            w7 = World.build({"name": t["from"]["name"], "kids": t["from"]["kids"]})
+            srcs7 = set()
+
+            def mark(k):
+                srcs7.add(k)
+                for c_ in t["from"]["kids"][k - 1]:
+                    mark(c_)
+            mark(op["args"][0])
+            for j, x in enumerate(w7.nodes):
+                if (j + 1) not in srcs7:
+                    x.add_extras("xml:lang", "es")
+                    x.add_extras("x:note", "outside")
+                    x.add_attribute("lang", "en")
+                    x.add_attribute("id", "outside-%d" % j)
+                    x.content = "outside text"
+                    x.tail = "outside tail"
+                    x.prefix = "o"
+            nb7 = len(w7.nodes)
+            ok7, r7, _e = w7.apply("copy", op["args"])
+            if ok7:
+                def pre7(k):
+                    return [k] + [y for c_ in t["from"]["kids"][k - 1] for y in pre7(c_)]
+                for sk, cp in zip(pre7(op["args"][0]), w7.nodes[nb7:]):
+                    so = w7.n(sk)
+                    bad = [f for f in ("attributes", "extras", "content", "tail", "prefix", "name") if getattr(so, f) != getattr(cp, f)]
+                    if bad:
+                        out.append(("copy:not-equal:fields-taken-from-outside-the-subtree:" + ",".join(bad),
+                                    f"source node {sk}: " + "; ".join(f"{f} {getattr(so, f)!r} -> {getattr(cp, f)!r}" for f in bad), replay))
+                        break
+            n += 1
         # the same source, its child lists assigned through the `children` property (no parent pointer is set that way;
         # a tree is its child lists): below the copy's root every parent link must point inside the copy all the same
         if i % 2 == 0 and len(t["from"]["kids"]) > 1:
